@@ -54,7 +54,7 @@ theorem PInv.wakeWaiters {w : World} (hp : PInv ex fr w) (p : Pid) (sig : Int) :
            fb := fun x hxx hx => by rw [hpa, hea]; rw [(haw x).2.2] at hx; exact hp.fb x hxx hx,
            w1 := fun x q hq hx => by rw [(haw q).1]; exact hp.w1 x q (hwt x q hq).1 hx,
            wn := ?_, e1 := fun h l q hm hq hx => by rw [(haw q).1]; exact hp.e1 h l q hm hq hx,
-           en := hp.en, op := ?_, oe := ?_, up := ?_, ue := ?_ }
+           en := hp.en, op := ?_, oe := ?_, up := ?_, ue := ?_, oh := ?_ }
   · intro x; rw [hpr]; split
     · simp
     · exact hp.wn x
@@ -73,6 +73,19 @@ theorem PInv.wakeWaiters {w : World} (hp : PInv ex fr w) (p : Pid) (sig : Int) :
     · exact absurd ((hnew e he).1.symm.trans ha) hne
     · obtain ⟨h, h1, h2⟩ := hp.oe e he ha x hb hx
       exact ⟨h, by rw [(haw x).1]; exact h1, h2⟩
+  · intro e he ha x hb hx h hh
+    simp only [pushAll_pending, modProc_ev, List.mem_append] at he
+    rw [(haw x).1] at hh
+    rcases he with he | he
+    · exact absurd ((hnew e he).1.symm.trans ha) hne
+    · obtain ⟨h1, h2⟩ := hp.oh e he ha x hb hx h hh
+      refine ⟨fun hm => ?_, by simp only [pushAll_counter, modProc_ev]; omega⟩
+      obtain ⟨e2, he2, hk2⟩ := Event.mem_keys.1 hm
+      simp only [pushAll_pending, modProc_ev, List.mem_append] at he2
+      rcases he2 with he2 | he2
+      · have := (wakeEvs_props he2).1
+        omega
+      · exact h1 (Event.mem_keys.2 ⟨e2, he2, hk2⟩)
   · intro a ha b hb haa hba hbb x hbx hx
     simp only [pushAll_pending, modProc_ev, List.mem_append] at ha hb
     -- an old process-end wake-up for a registered waiter of p is impossible
@@ -146,7 +159,7 @@ theorem PInv.cmd_waitProc {w : World} (hp : PInv ex fr w) {p q : Pid} (hfr : fr 
   have hnop : ∀ a, Await.proc a ∉ (w.proc p).awaits := by
     intro a ha; rw [mem_awaits_proc, hnil.1] at ha; cases ha
   refine { ei := hp.ei, ap := ?_, ae := ?_, ar := ?_, fb := ?_, w1 := ?_, wn := ?_, e1 := ?_, en := hp.en,
-           op := ?_, oe := ?_, up := hp.up, ue := hp.ue }
+           op := ?_, oe := ?_, up := hp.up, ue := hp.ue, oh := ?_ }
   · intro x; rw [hpa]
     by_cases hx : x = p
     · subst hx; right; exact ⟨q, setFrame_self _ _ _, by simp⟩
@@ -189,5 +202,14 @@ theorem PInv.cmd_waitProc {w : World} (hp : PInv ex fr w) {p q : Pid} (hfr : fr 
   · intro e he ha x hb hx
     obtain ⟨h, h1, h2⟩ := hp.oe e he ha x hb hx
     exact ⟨h, hsub x _ h1, h2⟩
+
+  · intro e he ha x hb hx h hh
+    refine hp.oh e he ha x hb hx h ?_
+    rw [(hf x).1] at hh
+    split at hh
+    · rcases List.mem_cons.1 hh with h' | h'
+      · cases h'
+      · exact h'
+    · exact hh
 
 end CimbaModel.Sim.S3
